@@ -18,9 +18,9 @@ func init() {
 		Title: "Every compiled function is well-formed bytecode the VM can run without faulting",
 		Explanation: "Decided: R07-narrow — every narrowing conversion stored into a FunctionProto field is dominated by a raising range check of the same value against a constant that fits the field; R07-rk/R07-bx/R07-sbx — operand-width guards derived from opcode.go: every opRkAsk argument is checked against opMaxIndexRk, every Bx operand comes from ConstIndex (which raises above opMaxArgBx) or is range-checked, every value that becomes a final sBx jump distance is range-checked (two-sided where the sign is unknown) and label ids parked in the sBx field are bounded in NewLabel, the only writer of labelId; " +
 			"R07-extword — a word emitted through raw codeStore.Add is not a constant under its own path condition (SETLIST batch number); R07-skipgroup — for every opcode whose handler reads trailing code words, patchCode's scan advances past them (or the opcode is exempt with a reason), and the three definitions of the CLOSURE group length agree; R07-consts — register/constant ceilings fit the operand fields and are enforced with raising arms; R07-ret — an OP_RETURN emission lies on every path between compileChunk and the assignment of Proto.Code; R07-parallel — code and line table are modified in lock-step, sliced with the same bound and assigned together, string-constant table is built after the last possible ConstIndex call; R01-optable/R01-emit/R01-decode shared. " +
-			"R07-regcount — for every opcode whose VM handler stores into R(A+k), patchCode's case for that opcode accounts for at least A+k when it computes NumUsedRegisters (or derives the mark from the operands). NOT decided: that register operands stay below NumUsedRegisters (post-hoc high-water scan; a value argument), that every label is defined before patchCode, that jump targets are instruction boundaries.",
+			"R07-regcount — for every opcode whose VM handler stores into R(A+k), patchCode's case for that opcode accounts for at least A+k when it computes NumUsedRegisters (or derives the mark from the operands). R07-width — counts emitted as operands (CALL's B and C, VARARG's B) are compared with the operand width first; codeStore.Last() never hands the data word of an extended SETLIST to the peepholes. NOT decided: that register operands stay below NumUsedRegisters (post-hoc high-water scan; a value argument), that every label is defined before patchCode, that jump targets are instruction boundaries.",
 		Trusted: []string{"codeStore.LastPC() is non-decreasing while one statement is compiled (a numeric for's body length is non-negative)"},
-		Rules:   []func(*Ctx){ruleNarrow, ruleRk, ruleBx, ruleSbx, ruleExtWord, ruleSkipGroup, ruleRegCount, ruleConsts, ruleRet, ruleParallel, ruleOptable, ruleEmit, ruleDecode},
+		Rules:   []func(*Ctx){ruleNarrow, ruleRk, ruleBx, ruleSbx, ruleExtWord, ruleSkipGroup, ruleRegCount, ruleOperandWidth, ruleConsts, ruleRet, ruleParallel, ruleOptable, ruleEmit, ruleDecode},
 	})
 }
 
@@ -538,6 +538,69 @@ func ruleExtWord(c *Ctx) {
 			c.check(!isConst, R, key, p.ipos(e.In), "raw code word carries a computed value ("+shortKey(vkey(v))+")",
 				"a raw extension word is emitted but its value is a constant under its own path condition ("+why+"): the information it was meant to carry (SETLIST batch number) is lost")
 		}
+	}
+}
+
+// ruleOperandWidth: operands that are counts (not registers) are compared with the width of their field
+// before they are emitted; opCreateABC masks silently (F54: CALL's C = results+1 for an assignment with
+// more than 510 targets). And the word-level peepholes never see the data word of an extended SETLIST
+// as an instruction: codeStore.Last() tests the word before it (F55).
+func ruleOperandWidth(c *Ctx) {
+	const R = "R07-width"
+	c.floor(R, 4)
+	p := c.P
+	type site struct {
+		fn  string
+		op  string
+		pos int // index in e.Args: 2 = B, 3 = C
+		max string
+	}
+	for _, s := range []site{
+		{"compileFuncCallExpr", "OP_CALL", 2, "opMaxArgsB"},
+		{"compileFuncCallExpr", "OP_CALL", 3, "opMaxArgsC"},
+		{"compileExpr", "OP_VARARG", 2, "opMaxArgsB"},
+	} {
+		fn := c.need(R, "lua", s.fn)
+		if fn == nil {
+			continue
+		}
+		g := p.G(fn)
+		lim, _ := p.intConst("lua", s.max)
+		n := 0
+		for _, e := range p.emitSites(fn) {
+			if !e.emits(p.op(s.op)) || len(e.Args) <= s.pos {
+				continue
+			}
+			if _, isK := constInt(e.Args[s.pos]); isK {
+				continue
+			}
+			n++
+			c.Sites++
+			up, _, hasUp, _ := bounds(g, e.In, e.Args[s.pos])
+			c.check(hasUp && up <= lim, R, fmt.Sprintf("%s:%s:%s#%d", s.fn, s.op, string("?ABC"[s.pos]), n), p.ipos(e.In),
+				"the count is compared with the operand width before it is encoded",
+				fmt.Sprintf("%s encodes a computed count as operand %s of %s without comparing it with %s: opCreateABC masks it silently (an assignment with 600 targets from one call encodes C = 601 as 89, the results beyond are never set and registers above NumUsedRegisters are read)", s.fn, string("?ABC"[s.pos]), s.op, s.max))
+		}
+		if n == 0 {
+			c.und(R, s.fn+":"+s.op, p.pos(fn.Pos()), "emission with a computed operand not found")
+		}
+	}
+	if fn := c.need(R, "lua", "(*codeStore).Last"); fn != nil {
+		getOp := p.Fn("lua", "opGetOpCode")
+		okc := false
+		setlist := p.op("OP_SETLIST")
+		allInstrs(fn, func(in ssa.Instruction) {
+			b, ok := in.(*ssa.BinOp)
+			if !ok || (b.Op != token.EQL && b.Op != token.NEQ) {
+				return
+			}
+			if cl, ok := stripConv(b.X).(*ssa.Call); ok && cl.Call.StaticCallee() == getOp {
+				if k, ok := constInt(b.Y); ok && k == setlist {
+					okc = true
+				}
+			}
+		})
+		c.check(okc, R, "codeStore.Last:hides-setlist-data-word", p.pos(fn.Pos()), "Last() looks at the word before the last one for an extended SETLIST", "codeStore.Last() returns the batch-number word of an extended SETLIST as if it were an instruction (its opcode bits read as MOVE): the operand peepholes pop it and the next instruction overwrites it ('n = #{… 25551 items …}' leaves the table in n)")
 	}
 }
 
